@@ -108,9 +108,12 @@ func c06Cipher(c *core.Ctx, k *core.Case) {
 	var err error
 	switch api {
 	case apiNAS:
-		buf := cloneB(in)
+		buf, intact := guarded(in)
 		err = security.NASEncrypt(uint8(alg), key, count, uint8(bearer), uint8(dir), buf)
 		got = buf
+		if !intact() {
+			c.Fail(k, fmt.Sprintf("writes-outside-payload:alg%d", alg), "NASEncrypt wrote into the caller's buffer outside the payload slice")
+		}
 	case apiAlg:
 		buf := cloneB(in)
 		switch alg {
@@ -169,6 +172,72 @@ func c06Keystream(c *core.Ctx, k *core.Case) {
 		if got[i] != want[i] {
 			c.Fail(k, fmt.Sprintf("keystream-mismatch:alg%d", alg), fmt.Sprintf("word %d of %d: got %08x want %08x (key %x iv %x)", i, n, got[i], want[i], k.B[0], k.B[1]))
 			return
+		}
+	}
+}
+
+// c06SeqLens derives the length sequence of a same-parameter series: a long
+// unaligned length, shorter ones, longer again, the first again, zero, aligned.
+func c06SeqLens(r *prng.Rand, octets bool) []int {
+	a := r.Range(200, 1600)
+	ls := []int{a, r.Range(1, a-1), r.Range(a/2, a+200), a, r.Range(1, 64), 0, (a/32 + 1) * 32, r.Range(a, a+400), r.Range(1, a)}
+	if octets {
+		for i := range ls {
+			ls[i] = (ls[i] + 7) / 8 * 8
+		}
+	}
+	return ls
+}
+
+// oracle "cipher-seq": I=[alg, count, bearer, direction, api, seed] B=[key] — a series of
+// calls with IDENTICAL parameters and varying lengths; every call is compared with
+// the reference. Hidden state kept between calls (keystream caches, reused
+// buffers) shows as a mismatch on a later call of the series.
+func c06CipherSeq(c *core.Ctx, k *core.Case) {
+	if !refReady(c) {
+		return
+	}
+	alg, api := int(k.I[0]), int(k.I[4])
+	r := prng.New(uint64(k.I[5]))
+	lens := c06SeqLens(r, api == apiNAS || alg == 2)
+	for step, nbits := range lens {
+		in := r.Bytes((nbits + 7) / 8)
+		kk := &core.Case{Oracle: "cipher", Target: k.Target, I: []int64{k.I[0], k.I[1], k.I[2], k.I[3], int64(nbits), k.I[4]}, B: [][]byte{k.B[0], in}}
+		before := c.Report().Counters["violating_cases"]
+		c06Cipher(c, kk)
+		if c.Report().Counters["violating_cases"] > before {
+			c.Fail(k, fmt.Sprintf("series-mismatch:alg%d:api%d", alg, api), fmt.Sprintf("call %d of a same-parameter series (bit lengths %v) differs from the standard function although the call is correct in isolation or earlier in the series", step, lens))
+			return
+		}
+	}
+	// raw keystream generators: same key/IV, varying word counts, result slices scribbled on in between
+	if alg != 2 && api == apiAlg {
+		key, iv := k.B[0], r.Bytes(16)
+		for step, n := range []int{9, 3, 9, 17, 1, 17} {
+			kk := &core.Case{Oracle: "keystream", Target: "keystream", I: []int64{int64(alg), int64(n)}, B: [][]byte{key, iv}}
+			before := c.Report().Counters["violating_cases"]
+			c06Keystream(c, kk)
+			// scribble: a returned slice that aliases internal state would poison the next call
+			if alg == 1 {
+				var kw, ivw [4]uint32
+				for i := 0; i < 4; i++ {
+					kw[i] = uint32(key[4*i])<<24 | uint32(key[4*i+1])<<16 | uint32(key[4*i+2])<<8 | uint32(key[4*i+3])
+					ivw[i] = uint32(iv[4*i])<<24 | uint32(iv[4*i+1])<<16 | uint32(iv[4*i+2])<<8 | uint32(iv[4*i+3])
+				}
+				ks := snow3g.GetKeyStream(kw, ivw, n)
+				for i := range ks {
+					ks[i] = 0xdeadbeef
+				}
+			} else {
+				ks := zuc.Zuc(cloneB(key), cloneB(iv), uint32(n))
+				for i := range ks {
+					ks[i] = 0xdeadbeef
+				}
+			}
+			if c.Report().Counters["violating_cases"] > before {
+				c.Fail(k, fmt.Sprintf("series-mismatch:keystream:alg%d", alg), fmt.Sprintf("keystream call %d of a same-key/IV series differs from the standard generator", step))
+				return
+			}
 		}
 	}
 }
@@ -255,7 +324,7 @@ func init() {
 			"only the first LENGTH bits of the output are compared; bit lengths are within 0..8*len(buffer)",
 			"crypto/aes is the trusted AES block primitive",
 		},
-		Oracles: map[string]func(*core.Ctx, *core.Case){"cipher": c06Cipher, "keystream": c06Keystream},
+		Oracles: map[string]func(*core.Ctx, *core.Case){"cipher": c06Cipher, "keystream": c06Keystream, "cipher-seq": c06CipherSeq},
 		Floors: func(tier string, cov map[string]map[string]int64, cnt map[string]int64) []string {
 			var f []string
 			if cnt["reference_kat_vectors_passed"] == 0 {
@@ -289,6 +358,9 @@ func init() {
 			}
 			if len(cov["bearer_dir"]) < 64 {
 				f = append(f, fmt.Sprintf("only %d of 64 bearer×direction values seen", len(cov["bearer_dir"])))
+			}
+			if len(cov["series"]) < 6 {
+				f = append(f, "same-parameter series did not run for every algorithm and API layer")
 			}
 			return f
 		},
@@ -345,6 +417,24 @@ func init() {
 				}})
 			}
 		}
+		for alg := 1; alg <= 3; alg++ {
+			alg := alg
+			for ch := 0; ch < 4; ch++ {
+				us = append(us, core.Unit{Name: fmt.Sprintf("series-alg%d-%d", alg, ch), Weight: 80, Run: func(c *core.Ctx) {
+					for i := 0; i < c.Pick(40, 1200); i++ {
+						key, count := cryptoParams(c.R, i)
+						api := int64(i % 2)
+						k := &core.Case{Oracle: "cipher-seq", Target: fmt.Sprintf("security.NEA%d", alg), I: []int64{int64(alg), int64(count), int64(c.R.Intn(32)), int64(c.R.Intn(2)), api, int64(c.R.Uint64() >> 1)}, B: [][]byte{key}}
+						if api == apiNAS {
+							k.Target = "security.NASEncrypt"
+						}
+						c.Do(k)
+						c.Cover("series", fmt.Sprintf("alg%d/api%d", alg, api))
+						c.NonTrivial(k.Hash())
+					}
+				}})
+			}
+		}
 		for _, alg := range []int{1, 3} {
 			alg := alg
 			for ch := 0; ch < 8; ch++ {
@@ -395,9 +485,14 @@ func c07Mac(c *core.Ctx, k *core.Case) {
 	case 3:
 		want = refcrypto.EIA3(key, count, bearer, dir, msg, nbits)
 	}
-	buf := cloneB(msg)
+	buf, bufIntact := guarded(msg)
 	var mac []byte
 	var err error
+	defer func() {
+		if !bufIntact() {
+			c.Fail(k, fmt.Sprintf("writes-outside-message:alg%d", alg), "the MAC function wrote into the caller's buffer outside the message slice")
+		}
+	}()
 	switch api {
 	case apiNAS:
 		mac, err = security.NASMacCalculate(uint8(alg), key, count, uint8(bearer), uint8(dir), buf)
@@ -434,6 +529,27 @@ func c07Mac(c *core.Ctx, k *core.Case) {
 	}
 }
 
+// oracle "mac-seq": I=[alg, count, bearer, direction, api, seed] B=[key] — a series of MAC
+// calls with identical parameters and varying message lengths (see cipher-seq).
+func c07MacSeq(c *core.Ctx, k *core.Case) {
+	if !refReady(c) {
+		return
+	}
+	alg, api := int(k.I[0]), int(k.I[4])
+	r := prng.New(uint64(k.I[5]))
+	lens := c06SeqLens(r, api == apiNAS || alg == 2)
+	for step, nbits := range lens {
+		msg := r.Bytes((nbits + 7) / 8)
+		kk := &core.Case{Oracle: "mac", Target: k.Target, I: []int64{k.I[0], k.I[1], k.I[2], k.I[3], int64(nbits), k.I[4], 0}, B: [][]byte{k.B[0], msg}}
+		before := c.Report().Counters["violating_cases"]
+		c07Mac(c, kk)
+		if c.Report().Counters["violating_cases"] > before {
+			c.Fail(k, fmt.Sprintf("series-mismatch:alg%d:api%d", alg, api), fmt.Sprintf("call %d of a same-parameter series (bit lengths %v) differs from the standard function", step, lens))
+			return
+		}
+	}
+}
+
 func init() {
 	p := &core.Property{
 		ID:   "C07",
@@ -443,7 +559,7 @@ func init() {
 			"the MAC of a zero-length message is the value the specifications' formulae give (f9: D=1, no message block; CMAC over the 8-octet header; EIA3: z[0] xor z[32])",
 			"bit lengths are within 0..8*len(buffer); the message is the first LENGTH bits of the buffer",
 		},
-		Oracles: map[string]func(*core.Ctx, *core.Case){"mac": c07Mac},
+		Oracles: map[string]func(*core.Ctx, *core.Case){"mac": c07Mac, "mac-seq": c07MacSeq},
 		Floors: func(tier string, cov map[string]map[string]int64, cnt map[string]int64) []string {
 			var f []string
 			if cnt["reference_kat_vectors_passed"] == 0 {
@@ -481,6 +597,9 @@ func init() {
 			if cov["tail"]["dirty"] == 0 || cov["tail"]["clean"] == 0 {
 				f = append(f, "tail shapes not both exercised")
 			}
+			if len(cov["series"]) < 6 {
+				f = append(f, "same-parameter series did not run for every algorithm and API layer")
+			}
 			return f
 		},
 	}
@@ -496,6 +615,21 @@ func init() {
 			const chunks = 24
 			for ch := 0; ch < chunks; ch++ {
 				ch := ch
+				if ch < 4 {
+					us = append(us, core.Unit{Name: fmt.Sprintf("series-alg%d-%d", alg, ch), Weight: 80, Run: func(c *core.Ctx) {
+						for i := 0; i < c.Pick(40, 1200); i++ {
+							key, count := cryptoParams(c.R, i)
+							api := int64(i % 2)
+							k := &core.Case{Oracle: "mac-seq", Target: fmt.Sprintf("security.NIA%d", alg), I: []int64{int64(alg), int64(count), int64(c.R.Intn(32)), int64(c.R.Intn(2)), api, int64(c.R.Uint64() >> 1)}, B: [][]byte{key}}
+							if api == apiNAS {
+								k.Target = "security.NASMacCalculate"
+							}
+							c.Do(k)
+							c.Cover("series", fmt.Sprintf("alg%d/api%d", alg, api))
+							c.NonTrivial(k.Hash())
+						}
+					}})
+				}
 				us = append(us, core.Unit{Name: fmt.Sprintf("mac-alg%d-%02d", alg, ch), Weight: 100, Run: func(c *core.Ctx) {
 					idx := 0
 					for li := ch; li < len(lens); li += chunks {
@@ -563,14 +697,43 @@ func init() {
 
 func c08Valid(alg, bearer, dir int) bool { return alg <= 3 && bearer <= 31 && dir <= 1 }
 
+// guarded places a copy of in inside a larger buffer, 16 guard octets before it
+// and 24 after it, and returns the inner slice WITH the trailing guard as spare
+// capacity — an append or an out-of-range write by the callee lands in the guard.
+func guarded(in []byte) (inner []byte, intact func() bool) {
+	buf := make([]byte, 16+len(in)+24)
+	for i := range buf {
+		buf[i] = 0xa5
+	}
+	copy(buf[16:], in)
+	inner = buf[16 : 16+len(in)]
+	intact = func() bool {
+		for i := 0; i < 16; i++ {
+			if buf[i] != 0xa5 {
+				return false
+			}
+		}
+		for i := 16 + len(in); i < len(buf); i++ {
+			if buf[i] != 0xa5 {
+				return false
+			}
+		}
+		return true
+	}
+	return
+}
+
 // oracle "laws": I=[alg, count, bearer, dir]  B=[key, payload, other-payload-of-same-length]
 func c08Laws(c *core.Ctx, k *core.Case) {
 	alg, count, bearer, dir := uint8(k.I[0]), uint32(k.I[1]), uint8(k.I[2]), uint8(k.I[3])
 	key := key16(k.B[0])
 	p, q := k.B[1], k.B[2]
 	enc := func(in []byte) ([]byte, error) {
-		b := cloneB(in)
+		b, intact := guarded(in)
 		err := security.NASEncrypt(alg, key, count, bearer, dir, b)
+		if !intact() {
+			c.Fail(k, fmt.Sprintf("writes-outside-payload:alg%d", alg), fmt.Sprintf("NASEncrypt on a %d-octet payload wrote into the caller's buffer outside the payload slice", len(in)))
+		}
 		return b, err
 	}
 	c.Eval(1)
@@ -615,8 +778,11 @@ func c08Laws(c *core.Ctx, k *core.Case) {
 		c.Fail(k, "nondeterministic", "two ciphering runs on equal arguments differ")
 	}
 	// MAC laws
-	msg := cloneB(p)
+	msg, msgIntact := guarded(p)
 	mac, err := security.NASMacCalculate(alg, key, count, bearer, dir, msg)
+	if !msgIntact() {
+		c.Fail(k, fmt.Sprintf("mac-writes-outside-message:alg%d", alg), fmt.Sprintf("NASMacCalculate on a %d-octet message wrote into the caller's buffer outside the message slice (e.g. padding appended into spare capacity)", len(p)))
+	}
 	if err != nil {
 		c.Fail(k, "unexpected-error", fmt.Sprintf("MAC with valid parameters rejected: %v", err))
 		return
